@@ -1,6 +1,57 @@
-From LD Require Import Base F32 Data Model Ops Bucket Eval EvalFacts.
-(* first obligation; the full statements of DESIGN.md section 6 are added as they are proved *)
-Theorem C11_invalid_ctx_untouched : forall re_ok re_match o E P f,
-  run re_ok re_match o E P CInvalid f = Done (mkoutcome (err_detail KUserNotSpecified) false []).
-Proof. exact run_invalid. Qed.
-Print Assumptions C11_invalid_ctx_untouched.
+(* C11 Big segment membership, status reporting and query economy *)
+From LD Require Import Base F32 Data Model Ops Bucket Eval EvalFacts Safety WellFormed Pure Order Events Trace.
+
+Theorem C11_reference_format : forall sg g, big_segment_ref sg g = sg_key sg ++ s ".g" ++ dec g.
+Proof. exact big_segment_ref_format. Qed.
+Print Assumptions C11_reference_format.
+
+(* included is a match, excluded a non-match, no answer / nil membership / no provider falls through to the rules *)
+Theorem C11_membership : forall re_ok re_match o E P c n chain sg g k,
+  sg_unbounded sg = true -> mem_str (sg_key sg) chain = false -> sg_generation sg = Some g ->
+  ctx_key_by_kind c (sg_unb_kind sg) = Some k ->
+  p_seg re_ok re_match o E P c (S n) chain sg =
+  match (match p_membership P k with Some mem => assoc (big_segment_ref sg g) mem | None => None end) with
+  | Some included => Done (Ok included)
+  | None => p_seg_rules (p_seg_rule re_ok re_match o E c (p_seg re_ok re_match o E P c n (chain ++ [sg_key sg])) sg)
+                        (sg_key sg) (sg_rules sg)
+  end.
+Proof. exact p_seg_unbounded. Qed.
+Print Assumptions C11_membership.
+
+Theorem C11_lists_ignored : forall P c sg inc exc ic ec pi pe,
+  sg_unbounded sg = true ->
+  p_seg_early P c (mksegment (sg_key sg) inc exc ic ec (sg_salt sg) (sg_rules sg) (sg_unbounded sg) (sg_unb_kind sg)
+                             (sg_version sg) (sg_generation sg) (sg_deleted sg) pi pe) = p_seg_early P c sg.
+Proof. exact unbounded_ignores_lists. Qed.
+Print Assumptions C11_lists_ignored.
+
+Theorem C11_kind_absent_no_match_no_query : forall re_ok re_match o E P c n chain sg g st,
+  sg_unbounded sg = true -> mem_str (sg_key sg) chain = false -> sg_generation sg = Some g ->
+  ctx_key_by_kind c (sg_unb_kind sg) = None ->
+  seg_contains re_ok re_match o E P c (S n) chain sg st =
+  (Done (Ok false), mkst (s_cache st) (s_status st) (GUnbounded (sg_key sg) true false :: s_trace st)).
+Proof. exact seg_kind_absent_no_query. Qed.
+Print Assumptions C11_kind_absent_no_match_no_query.
+
+Theorem C11_missing_generation_not_configured : forall re_ok re_match o E P c n chain sg st,
+  sg_unbounded sg = true -> mem_str (sg_key sg) chain = false -> sg_generation sg = None ->
+  seg_contains re_ok re_match o E P c (S n) chain sg st =
+  (Done (Ok false), mkst (s_cache st) (Some NotConfigured) (GUnbounded (sg_key sg) false false :: s_trace st)).
+Proof. exact seg_no_generation_status. Qed.
+Print Assumptions C11_missing_generation_not_configured.
+
+Theorem C11_status_order :
+  (bs_priority NotConfigured > bs_priority StoreError /\ bs_priority StoreError > bs_priority Stale /\
+   bs_priority Stale > bs_priority Healthy)%Z.
+Proof. exact priority_order. Qed.
+Print Assumptions C11_status_order.
+Theorem C11_merge_keeps_worst : forall a b,
+  merge_status (Some a) (Some b) = Some (if (bs_priority b <? bs_priority a)%Z then a else b).
+Proof. exact merge_is_worst. Qed.
+Print Assumptions C11_merge_keeps_worst.
+
+(* within one evaluation (prerequisites included) the store is queried at most once per context key *)
+Theorem C11_query_once : forall re_ok re_match o E P c f out,
+  run re_ok re_match o E P c f = Done out -> NoDup (queries (out_trace out)).
+Proof. exact queries_nodup. Qed.
+Print Assumptions C11_query_once.
